@@ -329,6 +329,108 @@ func fieldAt(fields []field, off int) string {
 	return "?"
 }
 
+// csAllForms returns every CompactSize form that can carry v (1, 3, 5 and 9 bytes wide).
+func csAllForms(v uint64) [][]byte {
+	var out [][]byte
+	if v < 253 {
+		out = append(out, []byte{byte(v)})
+	}
+	if v <= 0xffff {
+		out = append(out, []byte{253, byte(v), byte(v >> 8)})
+	}
+	if v <= 0xffffffff {
+		out = append(out, []byte{254, byte(v), byte(v >> 8), byte(v >> 16), byte(v >> 24)})
+	}
+	return append(out, binary.LittleEndian.AppendUint64([]byte{255}, v))
+}
+
+// the values at which the minimal width of a CompactSize changes
+var csBoundaries = []uint64{0xfc, 0xfd, 0xffff, 0x10000, 0xffffffff, 0x100000000}
+
+// boundaryTx builds a transaction in which the named count / length field really has the value n,
+// so that every other byte of the encoding is consistent with it.
+func boundaryTx(r *vlib.Rand, name string, n int) *reftx.Tx {
+	t := smallTx(r, 0, 1, 300)
+	fill := func(k int) []byte {
+		b := make([]byte, k)
+		r.Fill(b[:min(k, 64)])
+		return b
+	}
+	switch name {
+	case "scriptsig-len":
+		t.In[len(t.In)-1].ScriptSig = fill(n)
+	case "pkscript-len":
+		t.Out = append(t.Out, reftx.TxOut{Value: 1, PkScript: fill(n)})
+	case "witness-item-len":
+		t.In[0].Witness = [][]byte{fill(n), {1}}
+	case "witness-count":
+		w := make([][]byte, n)
+		w[0] = []byte{7}
+		t.In[0].Witness = w
+	case "vin-count":
+		in := make([]reftx.TxIn, n)
+		copy(in, t.In[:1])
+		for i := 1; i < n; i++ {
+			in[i].PrevHash[0], in[i].PrevHash[1], in[i].PrevHash[2] = byte(i), byte(i>>8), byte(i>>16)
+			in[i].Sequence = 0xffffffff
+		}
+		t.In = in
+		if len(t.In[0].Witness) == 0 {
+			t.In[0].Witness = [][]byte{{1}}
+		}
+	case "vout-count":
+		t.Out = make([]reftx.TxOut, n)
+		for i := range t.Out {
+			t.Out[i].Value = int64(i)
+		}
+	}
+	return t
+}
+
+func min(a, b int) int {
+	if a < b {
+		return a
+	}
+	return b
+}
+
+// boundaryCases: for a structure whose field `name` really is n, the field re-encoded in every
+// CompactSize form (exactly one of them is canonical).
+func boundaryCases(r *vlib.Rand, name string, n int, add func(kind byte, fam, fld string, data []byte)) {
+	b, fl := encodeTx(boundaryTx(r, name, n))
+	for _, f := range fl {
+		if f.Count && f.Name == name && f.Val == uint64(n) {
+			for _, form := range csAllForms(uint64(n)) {
+				add('t', "cs-boundary", name, splice(b, f.Off, f.Len, form))
+			}
+			return
+		}
+	}
+	panic("generator: boundary field not found: " + name)
+}
+
+// boundaryBlock: a block that really holds n transactions, its count in every form.
+func boundaryBlock(r *vlib.Rand, n int, add func(kind byte, fam, fld string, data []byte)) {
+	bl := randBlock(r, 1, 0)
+	hdr := bl.Header.Serialize()
+	cb := bl.Txs[0].Serialize(true)
+	t := &reftx.Tx{Version: 2, In: []reftx.TxIn{{Sequence: 0xffffffff}}, Out: []reftx.TxOut{{Value: 1, PkScript: []byte{0x51}}}}
+	body := make([]byte, 0, len(cb)+n*62)
+	body = append(body, cb...)
+	for i := 1; i < n; i++ {
+		t.In[0].PrevHash[0], t.In[0].PrevHash[1], t.In[0].PrevHash[2] = byte(i), byte(i>>8), byte(i>>16)
+		body = append(body, t.Serialize(true)...)
+	}
+	for _, form := range csAllForms(uint64(n)) {
+		add('b', "block-cs-boundary", "tx-count", cat3(hdr, form, body))
+	}
+}
+
+func cat3(a, b, c []byte) []byte {
+	out := make([]byte, 0, len(a)+len(b)+len(c))
+	return append(append(append(out, a...), b...), c...)
+}
+
 // ---------------------------------------------------------------------------------------------
 // batch generator: the cases of batch b are a pure function of (seed, b)
 
@@ -417,6 +519,38 @@ func genBatch(seed int64, batch int) []tcase {
 		b = reftx.AppendCompactSize(b, hv)
 		b = append(b, r.Bytes(r.Intn(12))...)
 		add('t', "cs-huge-short", "vin-count", b)
+	}
+
+	// 4b. CompactSize width boundaries with consistent bodies: the field really has the value
+	// 0xfc / 0xfd / 0xffff / 0x10000 and is written in every form (one canonical, the others not)
+	for _, name := range []string{"scriptsig-len", "pkscript-len", "witness-item-len", "witness-count"} {
+		for _, n := range []int{0xfc, 0xfd, 0xffff, 0x10000} {
+			boundaryCases(r, name, n, add)
+		}
+	}
+	for _, name := range []string{"vin-count", "vout-count"} {
+		for _, n := range []int{0xfc, 0xfd} {
+			boundaryCases(r, name, n, add)
+		}
+		if batch%4 == 0 { // 65535 / 65536 inputs are 2.7 MB per case
+			boundaryCases(r, name, 0xffff, add)
+			boundaryCases(r, name, 0x10000, add)
+		}
+	}
+	// the same boundary values (and the two around 2^32, which cannot have a real body) in every form
+	// at every count / length position of a small transaction
+	{
+		b, fl := encodeTx(smallTx(r, 0, 1, 400))
+		for _, f := range fl {
+			if !f.Count {
+				continue
+			}
+			for _, v := range csBoundaries {
+				for _, form := range csAllForms(v) {
+					add('t', "cs-boundary-short-body", f.Name, splice(b, f.Off, f.Len, form))
+				}
+			}
+		}
 	}
 
 	// 5. marker / flag grid
@@ -530,6 +664,21 @@ func genBatch(seed int64, batch int) []tcase {
 		// header only / header + count
 		add('b', "block-header-only", "header", b[:80:80])
 		add('b', "block-header-only", "tx-count", b[:81:81])
+	}
+
+	boundaryBlock(r, 0xfc, add)
+	boundaryBlock(r, 0xfd, add)
+	if batch%8 == 0 { // 65535 / 65536 transactions: 3.9 MB per case
+		boundaryBlock(r, 0xffff, add)
+		boundaryBlock(r, 0x10000, add)
+	}
+	{
+		b := append(make([]byte, 80), 0)
+		for _, v := range csBoundaries {
+			for _, form := range csAllForms(v) {
+				add('b', "block-cs-boundary-short-body", "tx-count", splice(b, 80, 1, append(form, r.Bytes(r.Intn(70))...)))
+			}
+		}
 	}
 
 	// 7. Merkle lists
